@@ -46,7 +46,8 @@ RESP_INTERIM = b"HTTP/1.1 102 Processing\r\nX-Progress: 1\r\n\r\nHTTP/1.1 103 Ea
 BODY = b"hello world"
 BIG_N = 1_500_000
 RESP_BIG = b"HTTP/1.1 200 OK\r\nContent-Type: application/octet-stream\r\nContent-Length: %d\r\n\r\n" % BIG_N + b"z" * BIG_N
-SHAPES = {"cl": RESP_CL, "chunked": RESP_CH, "interim": RESP_INTERIM, "big": RESP_BIG}
+RESP_EOF = b"HTTP/1.1 200 OK\r\nContent-Type: text/plain\r\nConnection: close\r\n\r\nhello world"  # body ends when the peer closes
+SHAPES = {"cl": RESP_CL, "chunked": RESP_CH, "interim": RESP_INTERIM, "big": RESP_BIG, "eof": RESP_EOF}
 
 
 def ceil_bound(x: float) -> float:
@@ -174,7 +175,7 @@ class World:
         case = self.case
         target = head.split(" ")[1]
         self.served.append((peer.idx, target))
-        resp = SHAPES[case.get("shape") or "cl"] if (target == "/main" or case.get("shape") != "big") else RESP_CL
+        resp = SHAPES[case.get("shape") or "cl"] if (target == "/main" or case.get("shape") not in ("big", "eof")) else RESP_CL
         if target.startswith("/hold"):
             # headers now, body when released
             peer.send(b"HTTP/1.1 200 OK\r\nContent-Length: 4\r\n\r\n")
@@ -197,6 +198,8 @@ class World:
             self.last_planned = delay * (len(segs) - 1) if delay else 0.0
             return
         peer.send(resp)
+        if resp is RESP_EOF and peer.transport is not None:
+            peer.transport.close()  # the close that delimits the body
 
     def main_conn_idx(self) -> int:
         return 1 if self.case.get("holder") else 0
@@ -294,11 +297,21 @@ def run_case(case: dict) -> dict:
             bystander = spawn(request("by", "/by", None, None), "bystander")
             loop.step()
         main = spawn(request("main", "/main", timeouts_for(case), data), "main")
-        if case.get("bystander") and not case.get("by_first"):
+        by_late = case.get("bystander") and case.get("by_when") == "after_fault"
+        if case.get("bystander") and not case.get("by_first") and not by_late:
             loop.step()
             bystander = spawn(request("by", "/by", None, None), "bystander")
+        late: dict = {}
+
+        def spawn_late(*_a) -> None:
+            # a request for the same host issued right after the faulted one ended (a retry, the next item of a work queue):
+            # whatever the faulted request shared - the DNS lookup still unwinding, the pool queue - must serve it
+            if "t" not in late:
+                late["t"] = spawn(request("by", "/by", None, None), "bystander")
 
         mode = case["mode"]
+        if by_late and mode == "timeout":
+            main.add_done_callback(spawn_late)
         if mode == "timeout":
             loop.run_until_idle()
             # let time pass until main finishes (or far beyond every bound)
@@ -336,8 +349,14 @@ def run_case(case: dict) -> dict:
                 main.cancel()
             if rel == "cancel-then-answer":
                 release_gates()
+            if by_late:
+                for _ in range(case.get("by_lag", 0)):
+                    loop.step()
+                spawn_late()
             loop.run_until_idle()
             out["main_done"] = main.done()
+        if by_late:
+            bystander = late.get("t")
         out["t_fail"] = res.get("main", (None, None, None, None))[3]
         out["main"] = res.get("main")
         out["main_transport_closed_at_fault"] = None
@@ -506,7 +525,7 @@ def stall_cases(tier: str) -> list[dict]:
         if stall == "pool":
             c["holder"] = True
         out.append(c)
-    for shape, resp in (("cl", RESP_CL), ("chunked", RESP_CH), ("interim", RESP_INTERIM)):
+    for shape, resp in (("cl", RESP_CL), ("chunked", RESP_CH), ("interim", RESP_INTERIM), ("eof", RESP_EOF)):
         cuts = range(0, len(resp)) if tier == "thorough" else sorted(set(list(range(0, len(resp), 3)) + [len(resp) - 1, resp.find(b"\r\n\r\n") + 4, resp.find(b"\r\n\r\n") + 2]))
         for cut in cuts:
             for kind in ("sock_read", "total", "connect", "sock_connect"):
@@ -565,6 +584,13 @@ def cancel_shapes() -> list[dict]:
         {"mode": "cancel", "shape": "cl", "stall": "dns", "bystander": True, "release": "answer-then-cancel"},
         {"mode": "cancel", "shape": "cl", "stall": "sock_connect", "bystander": True, "release": "answer-then-cancel"},
         {"mode": "cancel", "shape": "cl", "holder": True, "bystander": True, "by_first": True},
+        {"mode": "cancel", "shape": "cl", "stall": "dns", "bystander": True, "by_when": "after_fault", "by_lag": 0},
+        {"mode": "cancel", "shape": "cl", "stall": "dns", "bystander": True, "by_when": "after_fault", "by_lag": 1},
+        {"mode": "cancel", "shape": "cl", "stall": "dns", "bystander": True, "by_when": "after_fault", "by_lag": 2},
+        {"mode": "cancel", "shape": "cl", "holder": True, "bystander": True, "by_when": "after_fault", "by_lag": 0},
+        {"mode": "cancel", "shape": "cl", "stall": "sock_connect", "bystander": True, "by_when": "after_fault", "by_lag": 0},
+        {"mode": "cancel", "shape": "eof", "stall": "response", "cut": 70},
+        {"mode": "cancel", "shape": "eof"},
     ]
 
 
@@ -591,7 +617,7 @@ def unit_cancel(rec: Rec, shape: dict, kmax: int) -> None:
 def sampled_cases(draw):
     mode = draw(st.sampled_from(["timeout", "cancel"]))
     stall = draw(st.sampled_from([None, "pool", "dns", "sock_connect", "write", "response", "response"]))
-    shape = draw(st.sampled_from(["cl", "chunked", "interim"]))
+    shape = draw(st.sampled_from(["cl", "chunked", "interim", "eof"]))
     case: dict = {"mode": mode, "shape": shape}
     if stall:
         case["stall"] = stall
@@ -619,6 +645,9 @@ def sampled_cases(draw):
             case["release"] = draw(st.sampled_from([None, "answer-then-cancel", "cancel-then-answer"]))
     if case.get("bystander") and stall in ("dns", "pool"):
         case["by_first"] = draw(st.booleans())  # only a shared lookup / queue makes the order matter
+    if case.get("bystander") and not case.get("by_first") and draw(st.integers(0, 2)) == 0:
+        case["by_when"] = "after_fault"
+        case["by_lag"] = draw(st.integers(0, 3))
     return case
 
 
@@ -633,7 +662,7 @@ def units(tier: str, seed: int) -> list[Unit]:
         us.append(Unit(f"stalls-{sh}", unit_stalls, {"shard": sh, "nshards": nsh}))
     for i, shape in enumerate(cancel_shapes()):
         us.append(Unit(f"cancel-{i}", unit_cancel, {"shape": shape, "kmax": 45 if tier == "quick" else 120}))
-    n = 150 if tier == "quick" else 25000
+    n = 600 if tier == "quick" else 25000
     for i in range(6 if tier == "quick" else 12):
         us.append(Unit(f"sampled{i}", unit_sampled, {"n": n, "offset": i}))
     return us
